@@ -8,18 +8,37 @@ use tracing::{error, info, warn};
 pub struct WalCleaner {
     shard_id: usize,
     wal_dir: PathBuf,
+    archiver: WalArchiver,
 }
 
 impl WalCleaner {
     /// Create a new cleaner for a given shard
     pub fn new(shard_id: usize) -> Self {
         let wal_dir = PathBuf::from(CONFIG.wal.dir.clone()).join(format!("shard-{}", shard_id));
-        Self { shard_id, wal_dir }
+        let archiver = WalArchiver::new(shard_id);
+        Self {
+            shard_id,
+            wal_dir,
+            archiver,
+        }
     }
 
     /// Create a new cleaner for a given shard with a custom WAL directory
     pub fn with_wal_dir(shard_id: usize, wal_dir: PathBuf) -> Self {
-        Self { shard_id, wal_dir }
+        // Archive the logs of the directory that is cleaned, not those of the configured one
+        let archive_dir =
+            PathBuf::from(CONFIG.wal.archive_dir.clone()).join(format!("shard-{}", shard_id));
+        let archiver = WalArchiver::with_dirs(
+            shard_id,
+            wal_dir.clone(),
+            archive_dir,
+            CONFIG.wal.compression_level,
+        );
+        Self {
+            shard_id,
+            wal_dir,
+            archiver,
+        }
     }
 
     /// Deletes all WAL logs with ID < `keep_from_log_id`.
@@ -38,8 +57,7 @@ impl WalCleaner {
             );
 
             // Archive WAL files before deletion
-            let archiver = WalArchiver::new(self.shard_id);
-            let archive_results = archiver.archive_logs_up_to(keep_from_log_id);
+            let archive_results = self.archiver.archive_logs_up_to(keep_from_log_id);
 
             // Count successes and failures
             let success_count = archive_results.iter().filter(|r| r.is_ok()).count();
